@@ -16,7 +16,9 @@ ASSUMPTIONS = ["window bounds are naive datetimes; time axes strictly increasing
 
 
 def sig_xarray(f):
-    return f.get("function", "").startswith("stream_run") and fs.xarray_deviates(f.get("case", {}))
+    # F9 changes WHICH rows a context covers; it never makes a run raise (an exception is a different failure)
+    return f.get("function", "").startswith("stream_run") and fs.xarray_deviates(f.get("case", {})) \
+        and not str(f.get("impl", "")).startswith("R:")
 
 
 SIGNATURES = {"xarray_window_inclusive_or_half_open_ignored": sig_xarray}
